@@ -616,3 +616,33 @@ TARGETS.append(
                    ('vrec__(_s, _e, _r, _a, _t)', {'_s': 'Z', '_e': 'Z', '_r': 'list Z', '_a': 'list Z', '_t': 'Z'},
                     '(if {_e} <? {_s} then ErrValue else if negb ({_e} - {_s} =? zlen {_r}) then ErrValue '
                     'else Ok (mkVrec {_s} {_e} {_r} {_a} {_t}))', 'resvrec')]))
+
+# (17) VEPRecord.convert_to_variant_record from `strand = gene_model.strand` on: gene sequence, the four
+#      coordinate_genomic_to_gene calls, transcript bounds, the strand swap of the interval, the start / stop site
+#      checks and the arms of (16)                                                       vs Vep.convert true
+#      Only the parsing of the Location column before it is outside (alt_start_genomic = a - 1, alt_end_genomic = b).
+VEP16 = [t for t in TARGETS if t['coq_name'] == 'py_vep_convert_core'][0]
+TARGETS.append(
+    dict(VEP16, coq_name='py_vep_convert',
+         args=[('g', 'gene'), ('t', 'txm'), ('chrom', 'seq'), ('e', 'vep')],
+         pre_env={'alt_start_genomic': ('(v_a e - 1)', 'Z'), 'alt_end_genomic': ('(v_b e)', 'Z')},
+         slice=('strand = gene_model.strand', 'if len(ref) == len(alt) == 1:'),
+         res_ctors=['ErrValue', 'ErrStart', 'ErrStop', 'ErrIndex'],
+         binds={'self.feature': 'txid', 'anno.transcripts[tx_id]': 'txmodel'},
+         raises=[('TranscriptionStartSiteMutationError', 'any', None, 'ErrStart'),
+                 ('TranscriptionStopSiteMutationError', 'any', None, 'ErrStop'),
+                 ('ValueError', 'any', None, 'ErrValue')],
+         patterns=[p for p in VEP16['patterns'] if p[0] not in ("self.allele == '-'", 'self.allele')
+                   and not p[0].startswith('str(seq.seq')] + [
+             ("self.allele == '-'", {}, '(match v_allele e with None => true | Some _ => false end)', 'bool'),
+             ('self.allele', {}, '(v_allele e)', 'opt:ValueError:list Z'),
+             ('gene_model.strand', {}, '(g_strand g)', 'Z'),
+             ('gene_model.get_gene_sequence(genome[chrom_seqname])', {}, '(gene_seq g chrom)', 'res geneseq'),
+             ('str(_q.seq[_a:_b])', {'_q': 'geneseq', '_a': 'Z', '_b': 'Z'}, '(pyslice {_q} {_a} {_b})', 'list Z'),
+             ('str(_q.seq[_a])', {'_q': 'geneseq', '_a': 'Z'},
+              '(option_map (fun x__ => [x__]) (pyindex {_q} {_a}))', 'opt:IndexError:list Z'),
+             ('anno.coordinate_genomic_to_gene(_i, self.gene)', {'_i': 'Z'}, '(g2gene g {_i})', 'res Z'),
+             ('_t.transcript.location.start', {'_t': 'txmodel'}, '(t_start t)', 'Z'),
+             ('_t.transcript.location.end', {'_t': 'txmodel'}, '(t_end t)', 'Z'),
+             ('_t.is_cds_start_nf()', {'_t': 'txmodel'}, '(t_nf t)', 'bool')],
+         types={'resvrec': '(res vrec)', 'geneseq': 'seq'}))
